@@ -191,4 +191,47 @@ def _short(x):
     return x
 
 
-PARTS = [Part("splits", case_strategy, execute, quick=800, thorough=4000)]
+def large_cases(tier):
+    """thorough tier only: streams far longer than the generated tables (size-dependent logic,
+    e.g. history caps, cannot show on 12 rows)"""
+    if tier != "thorough":
+        return
+    for fam, agg in (("expanding", "sum"), ("expanding", "mean"), ("expanding", "count"),
+                     ("cum", "cumsum")):
+        yield {"large": True, "fam": fam, "agg": agg, "rows": 1_300_000, "batches": 13}
+
+
+def execute_large(case):
+    import numpy as np
+    n, nb = case["rows"], case["batches"]
+    x = (np.arange(n) % 97 - 48) / 4.0
+    df = pd.DataFrame({"x": x, "y": np.arange(n) % 5})
+    size = n // nb
+    bs = [df.iloc[i * size:(i + 1) * size] for i in range(nb)]
+    op = {"fam": case["fam"], "agg": case["agg"], "col": "x"}
+    if case["fam"] == "ewm":
+        op["ewm"] = {"com": 3.0}
+    src = Stream()
+    sdf = DataFrame(src, example=df.iloc[:2])
+    out = stream_op(sdf, op).stream.sink_to_list()
+    v = []
+    for k, b in enumerate(bs):
+        src.emit(b)
+        if k in (0, nb // 2, nb - 1):
+            prefix = df.iloc[:(k + 1) * size]
+            if case["fam"] == "cum":
+                r = dc.same(out[k].iloc[-1], pandas_full(prefix, op).iloc[-1])
+            elif case["fam"] == "ewm":
+                r = dc.same(out[k].iloc[0], pandas_prefix(prefix, op))
+            else:
+                r = dc.same(out[k], pandas_prefix(prefix, op))
+            if r:
+                v.append(("%s:%s.%s:differs-on-a-long-stream" % (ID, case["fam"], case["agg"]),
+                          "after %d rows in %d batches: %s" % ((k + 1) * size, k + 1, r)))
+                break
+    return Result(v, nontrivial=True, classes=["long-stream"])
+
+
+PARTS = [Part("splits", case_strategy, execute, quick=800, thorough=4000),
+         Part("long-streams", None, execute_large, quick=0, thorough=0, shards=1,
+              exhaustive=large_cases)]
